@@ -53,6 +53,7 @@ struct SimThread {
   uint32_t hook = 0;
   uint32_t weighted = 0;
   uint32_t total_hooks = 0;
+  uint32_t op0_hooks = 0;
   uint32_t consecutive = 0;
   uint32_t lone_spins = 0;
   int hooks_off = 0;
@@ -125,7 +126,10 @@ struct Global {
   std::string engine;
   bool tracing = false;
   std::vector<std::string> trace;
-  std::vector<uint32_t> last_len, last_hooks;
+  std::vector<uint32_t> last_len, last_hooks, last_op0;
+  // systematic double preemption (ST_SWEEP2): x runs to hook i of its operation 0, y runs to completion, z runs to hook j of
+  // its operation 0, x completes, the rest follows the default policy
+  struct Sweep2 { int x = 0, y = 0, z = 0, i = 0, j = 0, phase = 0; } sw;
   Stats stats;
   uint64_t run_probes[16] = {};
   pthread_key_t key;
@@ -269,6 +273,18 @@ int decide(SimThread* st, int kind, bool forced, bool can_self) {
         }
         break;
       }
+      case ST_SWEEP2: {
+        auto runnable = [&](int id) { return id > 0 && static_cast<size_t>(id) < g.threads.size() && g.threads[static_cast<size_t>(id)]->state == SimThread::RUNNABLE; };
+        auto& sw = g.sw;
+        if (forced) {
+          if (sw.phase == 0 && st->id == 0 && runnable(sw.x)) target = sw.x;                                  // x starts
+          else if (sw.phase == 1 && st->id == sw.y && runnable(sw.z)) { target = sw.z; sw.phase = 2; }       // y is done: z
+          else if (sw.phase == 2 && st->id == sw.z && runnable(sw.x)) { target = sw.x; sw.phase = 3; }       // z ended before hook j
+          else if (sw.phase == 0 && st->id == sw.x && runnable(sw.y)) { target = sw.y; sw.phase = 1; }       // x ended before hook i
+        } else if (sw.phase == 0 && st->id == sw.x && st->op == 0 && static_cast<int>(st->hook) == sw.i && runnable(sw.y)) { target = sw.y; sw.phase = 1; g.stats.preemptions++; }
+        else if (sw.phase == 2 && st->id == sw.z && st->op == 0 && static_cast<int>(st->hook) == sw.j && runnable(sw.x)) { target = sw.x; sw.phase = 3; g.stats.preemptions++; }
+        break;
+      }
       case ST_PCT: {
         if (g.pct_next < g.pct_changes.size() && g.step >= g.pct_changes[g.pct_next]) {
           g.pct_next++;
@@ -342,6 +358,7 @@ void do_point(SimThread* st, int kind, const void* addr) {
   g.step++;
   st->hook++;
   st->total_hooks++;
+  if (st->op == 0) st->op0_hooks++;
   g.stats.kind_count[kind < K_KIND_MAX ? kind : 0]++;
   log_event(st, kind, addr);
   if (g.step > g.budget)
@@ -458,6 +475,7 @@ const std::vector<std::string>& trace() { return g.trace; }
 void set_die_context(uint64_t seed, const char* engine) { g.seed = seed; g.engine = engine; }
 std::vector<uint32_t> thread_lengths() { return g.last_len; }
 std::vector<uint32_t> thread_hook_counts() { return g.last_hooks; }
+std::vector<uint32_t> thread_op0_hooks() { return g.last_op0; }
 size_t conflict_point_count(int order_desc) { return g.conflicts[order_desc ? 1 : 0].size(); }
 
 void die(const std::string& vclass, const std::string& detail) {
@@ -520,7 +538,7 @@ void name_region(const void* p, size_t n, uint64_t id) {
 void run_begin(const Case& c, const std::vector<uint32_t>* measured_len) {
   g.threads.resize(1);
   auto* t0 = g.threads[0].get();
-  t0->state = SimThread::RUNNABLE; t0->op = -1; t0->hook = 0; t0->weighted = 0; t0->total_hooks = 0; t0->consecutive = 0;
+  t0->state = SimThread::RUNNABLE; t0->op = -1; t0->hook = 0; t0->weighted = 0; t0->total_hooks = 0; t0->op0_hooks = 0; t0->consecutive = 0;
   t0->lone_spins = 0; t0->hooks_off = 0; t0->armed = false; t0->fired = false; t0->buggify_calls = 0;
   t0->buggify_at.clear();
   g.current = 0; g.active = false; g.step = 0; g.switches = 0;
@@ -584,6 +602,11 @@ void run_begin(const Case& c, const std::vector<uint32_t>* measured_len) {
           g.pre.push_back({victim, static_cast<uint32_t>(g.srng.below(L)), false});
         }
       }
+    } else if (g.strategy == ST_SWEEP2) {
+      g.sw = Global::Sweep2{};
+      g.sw.x = static_cast<int>(c.knob("sw_x", 1)); g.sw.y = static_cast<int>(c.knob("sw_y", 2)); g.sw.z = static_cast<int>(c.knob("sw_z", 3));
+      g.sw.i = static_cast<int>(c.knob("sw_i", 1)); g.sw.j = static_cast<int>(c.knob("sw_j", 1));
+      g.stats.bump("systematic_double_preemption_schedules");
     } else if (g.strategy == ST_PCT) {
       uint64_t total = 0;
       for (size_t t = 1; t <= nthreads; t++) total += len_of(static_cast<int>(t));
@@ -653,6 +676,8 @@ void run_end(Result& r) {
   for (auto& t : g.threads) g.last_len[static_cast<size_t>(t->id)] = t->weighted;
   g.last_hooks.assign(g.threads.size(), 0);
   for (auto& t : g.threads) g.last_hooks[static_cast<size_t>(t->id)] = t->total_hooks;
+  g.last_op0.assign(g.threads.size(), 0);
+  for (auto& t : g.threads) g.last_op0[static_cast<size_t>(t->id)] = t->op0_hooks;
   for (auto it = g.ledger.begin(); it != g.ledger.end();) {
     if (it->second.state != 0) {
       unpoison(it->second);
